@@ -354,6 +354,12 @@ class PartialSchemas(PartialFactory):
         )
 
     # override to add some fixes to partials
+    # override: a schema handed out without a stated version is the same schema
+    @classmethod
+    def get_partial(cls, mcls, *, typehints=None):
+        unw = UndefVersion._unwrap(mcls) or mcls
+        return super().get_partial(unw, typehints=typehints)
+
     @classmethod
     def _create_partial(cls, mcls, *, typehints=...):
         th = getattr(mcls, "_typehints", None)
